@@ -728,7 +728,7 @@ func run(c Case, o *lib.Obs) error {
 }
 
 func TestC15(t *testing.T) {
-	lib.Check(t, spec, lib.Scale(3000, 200000), gen, run)
+	lib.Check(t, spec, lib.Scale(3000, 40000), gen, run)
 	orderMu.Lock()
 	lib.Rec(spec).Extra("distinct_observed_histories", int64(len(orders)))
 	orderMu.Unlock()
